@@ -146,6 +146,78 @@ class Violations:
         return reported
 
 
+# ---------------------------------------------------------------------------------------------- the caller's tree
+_SAME_TREE = [("[1] U [2]", {"1": "F", "2": "F"}, {"1": "F", "2": "U"}),
+              ("[1][901] U [2][902] O [3][903]", {"1": "F", "2": "F", "3": "F"}, {"1": "F", "2": "F", "3": "U"}),
+              ("([1] O [2]) X [3]", {"1": "U", "2": "U", "3": "F"}, {"1": "F", "2": "U", "3": "F"}),
+              ("[1] U [501]", {"1": "F"}, {"1": "U"}), ("[2][901]", {"2": "F"}, {"2": "U"}),
+              ("[1] O [2] U [3][902]", {"1": "U", "2": "F", "3": "F"}, {"1": "U", "2": "F", "3": "U"})]
+
+
+def same_tree_twice(index: int) -> dict:
+    """the observation points of C04 / C07 take a parsed TREE: evaluating the same Tree object a second time, under
+    another assignment, has to give what a newly parsed tree gives (and the caller's tree is still the parse of its
+    expression).  -> {"failing": bool, ...}"""
+    from ahbicht.expressions.condition_expression_parser import parse_condition_expression_to_tree
+    from ahbicht.expressions.requirement_constraint_expression_evaluation import requirement_constraint_evaluation
+    from ahbicht.models.condition_nodes import ConditionFulfilledValue as V
+    text, first, second = _SAME_TREE[index]
+    word = {"F": V.FULFILLED, "U": V.UNFULFILLED}
+    fcs = {"901": True, "902": False, "903": True}
+
+    def cer(asg):
+        return bc.make_cer(rc={k: word[v] for k, v in asg.items()}, fc=fcs, hints=bc.hints_for(["501"]))
+
+    async def go():
+        def plain(r):
+            return [r.requirement_constraints_fulfilled, r.requirement_is_conditional, r.format_constraints_expression, r.hints]
+        tree = parse_condition_expression_to_tree(text)
+        bc.set_cer(cer(first))
+        await requirement_constraint_evaluation(tree)
+        bc.set_cer(cer(second))
+        again = plain(await requirement_constraint_evaluation(tree))
+        fresh = plain(await requirement_constraint_evaluation(parse_condition_expression_to_tree(text)))
+        return again, fresh, tree == parse_condition_expression_to_tree(text)
+
+    bc.configure_inject()
+    try:
+        again, fresh, untouched = bc.run(go())
+    except BaseException as e:  # noqa
+        return {"failing": True, "expression": text, "first": first, "second": second,
+                "problem": f"the second evaluation of the same tree raised {type(e).__name__}: {str(e)[:160]}"}
+    if again != fresh:
+        return {"failing": True, "expression": text, "first": first, "second": second, "same_tree_again": again,
+                "newly_parsed_tree": fresh, "callers_tree_untouched": untouched,
+                "problem": f"evaluating the SAME tree object again under {second} gives [fulfilled, conditional, fc expression, "
+                           f"hints] = {again}, a newly parsed tree gives {fresh}"}
+    return {"failing": False, "expression": text}
+
+
+def run_same_tree(ctx, clause_of: str) -> None:
+    """clause_of: 'C04' judges the outcome, 'C07' the format-constraint expression - both come from the same calls"""
+    t0 = time.time()
+    n_bad = 0
+    for i in range(len(_SAME_TREE)):
+        r = bc.in_fresh_child(lambda i=i: same_tree_twice(i))
+        if not r or not r["failing"]:
+            continue
+        relevant = "raised" in r["problem"] or (r["same_tree_again"][:2] != r["newly_parsed_tree"][:2] if clause_of == "C04"
+                                                else r["same_tree_again"][2] != r["newly_parsed_tree"][2])
+        if not relevant or n_bad >= 2:
+            continue
+        again = bc.in_fresh_child(lambda i=i: same_tree_twice(i))
+        if not again or not again["failing"]:
+            continue
+        n_bad += 1
+        ctx.violation(obligation=f"bounded/same-tree-evaluated-twice/{n_bad}", message=f"{again['expression']!r}: {again['problem']}",
+                      witness=again, replayed=True, signature=f"same-tree|{again['expression']}",
+                      replay_code=f"from bounded import c04\nprint(c04.same_tree_twice({i}))")
+    ctx.bounded("the same Tree object evaluated twice under different assignments", evaluations=3 * len(_SAME_TREE),
+                distinct_nontrivial=len(_SAME_TREE), rule="distinct (expression, first assignment, second assignment)",
+                samples=[{"expression": t, "first": a, "second": b} for t, a, b in _SAME_TREE[:2]], exhaustive=True,
+                bound=f"{len(_SAME_TREE)} expressions, each in a forked child", seconds=time.time() - t0)
+
+
 # ---------------------------------------------------------------------------------------------- C04 proper
 def _expected(tree: ts.Tree, rc_keys, rc_word: str):
     return ts.outcome(ts.spec_cf(tree, ts.decode_asg(rc_keys, rc_word)))
@@ -224,3 +296,4 @@ def run(ctx, tier: str, seed: int) -> None:
         check_trees(ctx, "outcome==spec/4-leaves", four, exhaustive,
                     f"{'all' if exhaustive else 'seeded sample of ' + str(budget)} valid in-domain trees with 4 leaves "
                     "x all 3^k assignments", deadline)
+    run_same_tree(ctx, "C04")
